@@ -219,6 +219,7 @@ type c09Job struct {
 	Inline bool   `json:"inline"`
 	Switch bool   `json:"switch"`
 	NoAST  bool   `json:"noast"`
+	Strict bool   `json:"strict"`
 }
 
 func c09Grammars() []c09Job {
@@ -241,6 +242,10 @@ func c09Grammars() []c09Job {
 	for _, n := range names {
 		out = append(out, c09Job{Name: n, Text: texts[n]}, c09Job{Name: n + " -inline -switch", Text: texts[n], Inline: true, Switch: true})
 	}
+	// with Strict the diagnostics become the returned error: it must be the same text on every schedule
+	for _, n := range []string{"leftrec", "manywarn", "warnings"} {
+		out = append(out, c09Job{Name: n + " -strict", Text: texts[n], Strict: true})
+	}
 	return out
 }
 
@@ -251,7 +256,9 @@ func c09Check(prop, tier string) (*Outcome, error) {
 	}
 	root := filepath.Join(engine.WorkDir(), fmt.Sprintf("c09-%d", os.Getpid()))
 	_ = os.RemoveAll(root)
-	defer os.RemoveAll(root)
+	if os.Getenv("VERIF_KEEP") == "" {
+		defer os.RemoveAll(root)
+	}
 	ov := filepath.Join(root, "ov")
 	hdir := filepath.Join(root, "h")
 	_ = os.MkdirAll(ov, 0o755)
